@@ -289,11 +289,20 @@ def dtypePeek (maps : List RMap) (h : RHeap) : List PVal → Out PVal
   | [] => ⟨h, [], .error .stopIteration⟩
   | r :: _ => applyMaps maps h r
 
-/-- `filter(bool, data)`: the `f` of a nested clause; a record without cells is dropped -/
-def truthy (h : RHeap) (v : PVal) : Bool :=
-  match h.items v with
-  | .ok [] => false
-  | _ => true
+/-- Python truthiness of a cell: a number is true when it is not 0, a container when it is not empty -/
+def truthyObj (h : RHeap) : PVal → Bool
+  | .atom a => a != 0
+  | .ref l => match h.get l with
+    | some o => !o.items.isEmpty
+    | none => true
+
+/-- `filter(bool, data)`: the `f` of a nested clause.  A tuple or list record is dropped when it has no cells; a
+    numpy record is true when any of its fields is (numpy's rule: a record of zeros and empty lists is dropped) -/
+def truthy (h : RHeap) : PVal → Bool
+  | .atom a => a != 0
+  | .ref l => match h.get l with
+    | some o => if o.rep = .nprec then o.items.any (truthyObj h) else !o.items.isEmpty
+    | none => true
 
 /-- `list(iter(self))` without record ranges: the records that pass `filter(bool, …)` (when there is a nested
     clause), each through all the maps, in order; the first exception ends the iteration -/
